@@ -8,14 +8,16 @@
 //
 // Oracle (DESIGN.md 5/C08), for a call made on an instance with no failed call since its last load:
 //  (1) the call returns;
-//  (2) rc != 0  <=>  GetErrorString() non-empty  <=>  GetErrorStringLineCount() > 0
-//      (the line-count leg is only counted, not trapped, after a *failed LoadDatabase**: reported finding,
-//       C08_STRICT_LOADDB=1 makes it strict);  warning string non-empty <=> warning line count > 0 (Run* only);
+//  (2) rc != 0  <=>  GetErrorString() non-empty  <=>  GetErrorStringLineCount() > 0;
+//      warning string non-empty <=> warning line count > 0;
 //  (3) text planted before the call with AddError/AddWarning (markers) is gone after it - string and line
 //      views describe this call only; after a successful call the error string is empty (implied by 2);
 //  (4) after a failed call LoadDatabaseString(small db) returns 0 with an empty error string and a fixed
 //      probe input reproduces bitwise (rc, error, warning, selected-output and output strings) what a fresh
-//      instance produced at start-up.
+//      instance produced at start-up.  Two probes: a light one (solution + phases, ~3 ms under ASan) and a
+//      heavy one (exchange, surface, reaction steps, output string; ~20 ms).  Which one is used is a function
+//      of the input bytes (heavy for 1 input hash in 8; C08_PROBE=heavy|light overrides), so that a saved
+//      input reproduces alone.
 #pragma once
 #include <cstdio>
 #include <cstdlib>
@@ -29,6 +31,7 @@
 #include <sstream>
 #include <exception>
 #include <unistd.h>
+#include <time.h>
 #include <signal.h>
 #include <sys/stat.h>
 #include <sys/resource.h>
@@ -41,7 +44,7 @@
 #include "Keywords.h"
 
 extern "C" const char *__asan_default_options() { return "detect_leaks=0:allocator_may_return_null=1:handle_abort=1"; }
-extern "C" const char *__ubsan_default_options() { return "print_stacktrace=1:halt_on_error=1"; }
+extern "C" const char *__ubsan_default_options() { return "print_stacktrace=1:halt_on_error=0"; }
 
 namespace c08 {
 
@@ -54,15 +57,16 @@ static volatile int g_inlib = 0;              // > 0 while a library call is on 
 static std::map<std::string, unsigned long long> g_cnt;
 static std::string g_stats_path, g_scratch, g_verif, g_db_text;
 static std::unordered_set<uint64_t> g_nt;     // hashes of distinct non-trivial inputs
-static const size_t NT_CAP = 2000000, NT_DUMP_CAP = 200000;
-static bool g_strict_loaddb = false;
+static const size_t NT_CAP = 2000000;
+static FILE *g_hash_file = 0;                 // <stats>.h: one line per new non-trivial input hash (appended)
+static int g_probe_mode = 0;                  // 0 by input hash, 1 always heavy, 2 always light
 static FI *g_I = 0;
 static bool g_fresh = false;                  // instance freshly loaded with the small db, nothing since
 static const char MARK_E[] = "C08MARK-E";
 static const char MARK_W[] = "C08MARK-W";
 
 struct Ref { int rc; std::string err, warn, sel, out; };
-static Ref g_ref;
+static Ref g_ref, g_ref_light;
 
 static const char PROBE[] =
 	"TITLE c08 probe\n"
@@ -72,6 +76,14 @@ static const char PROBE[] =
 	"SURFACE 1\n Hfo_w 0.002 600 1\n Hfo_s 0.0001\n -equilibrate 1\n"
 	"REACTION 1\n CO2 1\n 0.001 moles in 2 steps\n"
 	"SELECTED_OUTPUT 1\n -reset false\n -high_precision true\n -pH true\n -pe true\n -totals Ca C(4) Fe S(6)\n -molalities CaX2 Hfo_wOH2+\n -si Calcite Gypsum CO2(g)\n"
+	"USER_PUNCH 1\n -headings mu chg\n 10 PUNCH MU, CHARGE_BALANCE\n"
+	"END\n";
+
+static const char PROBE_LIGHT[] =
+	"TITLE c08 light probe\n"
+	"SOLUTION 1\n pH 7.5\n temp 20\n Na 12\n Cl 10 charge\n Ca 2\n C(4) 3\n S(6) 1\n Fe 0.02\n"
+	"EQUILIBRIUM_PHASES 1\n Calcite 0 0.01\n Goethite 0 0\n"
+	"SELECTED_OUTPUT 1\n -reset false\n -high_precision true\n -pH true\n -pe true\n -totals Ca C(4) Fe S(6)\n -si Calcite Gypsum CO2(g)\n"
 	"USER_PUNCH 1\n -headings mu chg\n 10 PUNCH MU, CHARGE_BALANCE\n"
 	"END\n";
 
@@ -103,11 +115,15 @@ static void dump_stats()
 	for (std::map<std::string, unsigned long long>::iterator it = g_cnt.begin(); it != g_cnt.end(); ++it)
 		fprintf(f, "%s %llu\n", it->first.c_str(), it->second);
 	fprintf(f, "nt_distinct %zu\n", g_nt.size());
-	size_t k = 0;
-	for (std::unordered_set<uint64_t>::iterator it = g_nt.begin(); it != g_nt.end() && k < NT_DUMP_CAP; ++it, ++k)
-		fprintf(f, "h %016llx\n", (unsigned long long)*it);
 	fclose(f);
 	rename(tmp.c_str(), g_stats_path.c_str());
+	if (g_hash_file) fflush(g_hash_file);
+}
+
+static void note_nt_hash(uint64_t h)
+{
+	if (g_nt.size() >= NT_CAP) return;
+	if (g_nt.insert(h).second && g_hash_file) fprintf(g_hash_file, "%016llx\n", (unsigned long long)h);
 }
 
 [[noreturn]] static void fail(const char *oracle, const std::string &msg)
@@ -164,6 +180,96 @@ static bool names_special_file(const uint8_t *d, size_t n)
 	return contains(s, "/dev") || contains(s, "/proc") || contains(s, "/sys") || contains(s, "/run/") || contains(s, "/fd/");
 }
 
+// Input *text* can name files the engine creates (INVERSE_MODELING -lon_netpath/-pat_netpath, TRANSPORT
+// -dump, ...).  Relative names land in the scratch directory (the working directory); a token that starts an
+// absolute path or climbs out with ".." could write anywhere (the sandbox runs as root), so such texts are
+// outside the experiment (counted).  "/ " as in BASIC "a / b" and "mol/kgw" are not paths.
+static bool names_outside_path(const std::string &t)
+{
+	for (size_t i = 0; i < t.size(); i++) {
+		char c = t[i];
+		if (c == '/' ) {
+			bool tok_start = i == 0 || t[i - 1] == ' ' || t[i - 1] == '\t' || t[i - 1] == '\n' || t[i - 1] == '\r' || t[i - 1] == '"' || t[i - 1] == '\'' || t[i - 1] == '=' || t[i - 1] == ',' || t[i - 1] == ';' || t[i - 1] == '$';
+			bool next_name = i + 1 < t.size() && !(t[i + 1] == ' ' || t[i + 1] == '\t' || t[i + 1] == '\n' || t[i + 1] == '\r');
+			if (tok_start && next_name) return true;
+		}
+		if (c == '.' && i + 1 < t.size() && t[i + 1] == '.' && ((i + 2 < t.size() && t[i + 2] == '/') || (i > 0 && t[i - 1] == '/'))) return true;
+	}
+	return false;
+}
+
+// ---- input filter for confirmed root causes on the unchanged tree (campaigns continue behind them; every skip
+//      is counted as skipped_known_<name>; the minimal inputs are in /verif/replays/C08/known/).
+//      C08_NO_KNOWN_FILTER=1 disables the filter (used to replay the known findings).
+static bool g_no_known_filter = false;
+
+static std::string lower(const std::string &s)
+{
+	std::string r = s;
+	for (size_t i = 0; i < r.size(); i++) if (r[i] >= 'A' && r[i] <= 'Z') r[i] += 32;
+	return r;
+}
+
+// first token of every logical line (lines end at \n or ;), lower case
+template <class F> static void for_each_first_token(const std::string &text, F f)
+{
+	size_t i = 0, n = text.size();
+	while (i < n) {
+		while (i < n && (text[i] == ' ' || text[i] == '\t' || text[i] == '\r')) i++;
+		size_t a = i;
+		while (i < n && !(text[i] == ' ' || text[i] == '\t' || text[i] == '\r' || text[i] == '\n' || text[i] == ';')) i++;
+		if (i > a) f(lower(text.substr(a, i - a)));
+		while (i < n && text[i] != '\n' && text[i] != ';') i++;
+		i++;
+	}
+}
+
+static inline bool is_prefix_of(const std::string &t, const char *full) { return !t.empty() && strncmp(t.c_str(), full, t.size()) == 0 && t.size() <= strlen(full); }
+
+static const char *known_trigger(const std::string &raw)
+{
+	if (g_no_known_filter) return 0;
+	const char *hit = 0;
+	// join continuation lines (backslash, optional blanks, newline) the way the line reader does
+	std::string text;
+	for (size_t i = 0; i < raw.size(); i++) {
+		if (raw[i] == '\\') {
+			size_t j = i + 1;
+			while (j < raw.size() && (raw[j] == ' ' || raw[j] == '\t' || raw[j] == '\r')) j++;
+			if (j < raw.size() && raw[j] == '\n') { i = j; continue; }
+		}
+		text += raw[i];
+	}
+	for_each_first_token(text, [&](const std::string &tok) {
+		if (tok.size() < 2 || tok[0] != '-') return;
+		std::string o = tok.substr(1);
+		// K1 integrate.cpp:430 qromb_midpnt forms &h[-1] (1-based polint idiom) whenever the Borkovec-Westall
+		//    diffuse-layer integration runs: SURFACE -diffuse_layer / -ddl without -donnan, SURFACE_RAW/_MODIFY -dl_type
+		if (is_prefix_of(o, "diffuse_layer") || is_prefix_of(o, "ddl") || is_prefix_of(o, "dl_type")) hit = "diffuse_layer_polint";
+	});
+	return hit;
+}
+
+// ---- UBSan reports (the asan variant is built with -fsanitize-recover=undefined, so the decision is made here):
+//      a report whose (check kind, source file, line) is a recorded known finding is counted and the execution
+//      continues; every other report is fatal.  UBSan itself reports a source location once per process, so the
+//      counters count processes (campaign segments / runner batches) in which the site was reached.
+//      C08_NO_KNOWN_FILTER=1 (strict replays) makes every report fatal; C08_UB_COLLECT=1 (triage runs only)
+//      lets every report of an integer-conversion/overflow/index kind continue and counts it as ub_site_*.
+struct UbSite { const char *kind, *file; unsigned line; const char *name; };
+static const UbSite KNOWN_UB[] = {
+#include "c08_known_ub.inc"
+	{0, 0, 0, 0}
+};
+static bool g_ub_collect = false;
+
+static const char *base_name(const char *p)
+{
+	const char *b = p;
+	for (const char *q = p; q && *q; q++) if (*q == '/') b = q + 1;
+	return b ? b : "";
+}
+
 static void set_strings(FI *I, bool out, bool log, bool dump, bool sel)
 {
 	I->SetErrorStringOn(true);
@@ -199,16 +305,16 @@ static std::string strip_clock(const std::string &o)
 	return r;
 }
 
-static Ref run_probe(FI *I)
+static Ref run_probe(FI *I, bool heavy)
 {
 	Ref r;
 	files_off(I);
-	set_strings(I, true, false, false, true);
-	r.rc = guarded("RunString(probe)", [&] { return I->RunString(PROBE); });
+	set_strings(I, heavy, false, false, true);
+	r.rc = guarded("RunString(probe)", [&] { return I->RunString(heavy ? PROBE : PROBE_LIGHT); });
 	r.err = I->GetErrorString();
 	r.warn = I->GetWarningString();
 	r.sel = I->GetSelectedOutputString();
-	r.out = strip_clock(I->GetOutputString());
+	r.out = heavy ? strip_clock(I->GetOutputString()) : std::string();
 	return r;
 }
 
@@ -236,34 +342,28 @@ static CallInfo check_after_call(FI *I, const char *what, int rc, bool is_load, 
 	}
 	bool lines_bad = ((elc > 0) != has_err);
 	bool wlines_bad = ((wlc > 0) != !ws.empty());
-	if (is_load && rc != 0 && !g_strict_loaddb) {
-		if (lines_bad) g_cnt["known_loaddb_lineview_skips"]++;
-	} else {
-		if (lines_bad) {
-			char b[200];
-			snprintf(b, sizeof b, "%s returned %d, error string %zu bytes, but GetErrorStringLineCount() = %d", what, rc, es.size(), elc);
-			fail("error_line_count", b);
-		}
-		if (wlines_bad) {
-			char b[200];
-			snprintf(b, sizeof b, "%s: warning string %zu bytes but GetWarningStringLineCount() = %d", what, ws.size(), wlc);
-			fail("warning_line_count", b);
-		}
+	if (lines_bad) {
+		char b[200];
+		snprintf(b, sizeof b, "%s returned %d, error string %zu bytes, but GetErrorStringLineCount() = %d", what, rc, es.size(), elc);
+		fail("error_line_count", b);
+	}
+	if (wlines_bad) {
+		char b[200];
+		snprintf(b, sizeof b, "%s: warning string %zu bytes but GetWarningStringLineCount() = %d", what, ws.size(), wlc);
+		fail("warning_line_count", b);
 	}
 	if (planted) {
 		if (contains(es, MARK_E) || contains(es, MARK_W))
 			fail("stale_error_text", std::string(what) + ": text recorded before the call is still in the error string: " + es.substr(0, 400));
 		if (contains(ws, MARK_W) || contains(ws, MARK_E))
 			fail("stale_warning_text", std::string(what) + ": text recorded before the call is still in the warning string: " + ws.substr(0, 400));
-		if (!(is_load && rc != 0 && !g_strict_loaddb)) {
-			for (int i = 0; i < elc && i < 50; i++) {
-				const char *l = I->GetErrorStringLine(i);
-				if (contains(l, strlen(l), MARK_E)) fail("stale_error_text", std::string(what) + ": error line view still holds text recorded before the call");
-			}
-			for (int i = 0; i < wlc && i < 50; i++) {
-				const char *l = I->GetWarningStringLine(i);
-				if (contains(l, strlen(l), MARK_W)) fail("stale_warning_text", std::string(what) + ": warning line view still holds text recorded before the call");
-			}
+		for (int i = 0; i < elc && i < 50; i++) {
+			const char *l = I->GetErrorStringLine(i);
+			if (contains(l, strlen(l), MARK_E)) fail("stale_error_text", std::string(what) + ": error line view still holds text recorded before the call");
+		}
+		for (int i = 0; i < wlc && i < 50; i++) {
+			const char *l = I->GetWarningStringLine(i);
+			if (contains(l, strlen(l), MARK_W)) fail("stale_warning_text", std::string(what) + ": warning line view still holds text recorded before the call");
 		}
 	}
 	ci.rc = rc;
@@ -311,22 +411,24 @@ static std::string first_diff(const std::string &a, const std::string &b)
 	return std::string(buf) + "fresh=[" + a.substr(s, 160) + "] now=[" + b.substr(s, 160) + "]";
 }
 
-// clause (4): reload + probe must reproduce the fresh answer
-static void reload_and_probe(FI *I, const char *after)
+// clause (4): reload + probe must reproduce the fresh answer; h = hash of the input (selects the probe)
+static void reload_and_probe(FI *I, const char *after, uint64_t h)
 {
 	load_small(I, after);
-	Ref r = run_probe(I);
+	bool heavy = g_probe_mode == 1 || (g_probe_mode == 0 && ((h >> 17) & 7) == 0);
+	Ref r = run_probe(I, heavy);
+	const Ref &ref = heavy ? g_ref : g_ref_light;
 	g_fresh = false;
-	g_cnt["probes"]++;
-	if (r.rc != g_ref.rc) {
+	g_cnt[heavy ? "probes_heavy" : "probes_light"]++;
+	if (r.rc != ref.rc) {
 		char b[120];
-		snprintf(b, sizeof b, "%s: probe returns %d, fresh instance gave %d: ", after, r.rc, g_ref.rc);
+		snprintf(b, sizeof b, "%s: probe returns %d, fresh instance gave %d: ", after, r.rc, ref.rc);
 		fail("probe_rc", b + r.err.substr(0, 600));
 	}
-	if (r.err != g_ref.err) fail("probe_error_string", std::string(after) + ": " + first_diff(g_ref.err, r.err));
-	if (r.warn != g_ref.warn) fail("probe_warning_string", std::string(after) + ": " + first_diff(g_ref.warn, r.warn));
-	if (r.sel != g_ref.sel) fail("probe_selected_output", std::string(after) + ": " + first_diff(g_ref.sel, r.sel));
-	if (r.out != g_ref.out) fail("probe_output", std::string(after) + ": " + first_diff(g_ref.out, r.out));
+	if (r.err != ref.err) fail("probe_error_string", std::string(after) + ": " + first_diff(ref.err, r.err));
+	if (r.warn != ref.warn) fail("probe_warning_string", std::string(after) + ": " + first_diff(ref.warn, r.warn));
+	if (r.sel != ref.sel) fail("probe_selected_output", std::string(after) + ": " + first_diff(ref.sel, r.sel));
+	if (r.out != ref.out) fail("probe_output", std::string(after) + ": " + first_diff(ref.out, r.out));
 }
 
 static std::string verif_dir()
@@ -350,7 +452,10 @@ static void init_common()
 	g_db_text = slurp(dbp);
 	if (g_db_text.size() < 100) harness_error("cannot read small database " + dbp);
 	if ((e = getenv("C08_STATS")) && *e) g_stats_path = e;
-	if ((e = getenv("C08_STRICT_LOADDB")) && *e == '1') g_strict_loaddb = true;
+	if (!g_stats_path.empty()) g_hash_file = fopen((g_stats_path + ".h").c_str(), "a");
+	if ((e = getenv("C08_NO_KNOWN_FILTER")) && *e == '1') g_no_known_filter = true;
+	if ((e = getenv("C08_UB_COLLECT")) && *e == '1') g_ub_collect = true;
+	if ((e = getenv("C08_PROBE")) && *e) g_probe_mode = strcmp(e, "heavy") == 0 ? 1 : strcmp(e, "light") == 0 ? 2 : 0;
 	if ((e = getenv("C08_SCRATCH")) && *e) g_scratch = e;
 	else {
 		char b[64];
@@ -359,6 +464,21 @@ static void init_common()
 	}
 	mkdir(g_scratch.c_str(), 0777);
 	if (chdir(g_scratch.c_str()) != 0) harness_error("cannot chdir to scratch directory " + g_scratch);
+	// fixed files for the file-name arguments and INCLUDE$ (relative names resolve in the scratch directory)
+	{
+		struct { const char *name, *text; } F[] = {
+			{"ok.pqi", "SOLUTION 9\n pH 7\n Na 1\n Cl 1\nEND\n"},
+			{"bad.pqi", "SOLUTION 9\n pH 7 charge\n pe 4 charge\n Nosuch 1\n -bad_option\nEND\n"},
+			{"small.dat", 0},
+		};
+		for (auto &f : F) {
+			FILE *o = fopen((g_scratch + "/" + f.name).c_str(), "wb");
+			if (!o) harness_error(std::string("cannot create ") + f.name);
+			if (f.text) fputs(f.text, o); else fwrite(g_db_text.data(), 1, g_db_text.size(), o);
+			fclose(o);
+		}
+		mkdir((g_scratch + "/adir").c_str(), 0777);
+	}
 	// a write beyond 64 MB fails with EFBIG instead of filling the disk
 	struct rlimit rl = {64u << 20, 64u << 20};
 	setrlimit(RLIMIT_FSIZE, &rl);
@@ -370,11 +490,23 @@ static void init_common()
 		int rc = guarded("LoadDatabaseString(small)", [&] { return X->LoadDatabaseString(g_db_text.c_str()); });
 		if (rc != 0) harness_error(std::string("small database does not load: ") + X->GetErrorString());
 	}
-	g_ref = run_probe(A);
-	Ref rb = run_probe(B);
+	g_ref = run_probe(A, true);
+	Ref rb = run_probe(B, true);
 	if (g_ref.rc != 0) harness_error("probe input fails on a fresh instance: " + g_ref.err);
 	if (g_ref.sel != rb.sel || g_ref.out != rb.out || g_ref.warn != rb.warn) harness_error("probe is not deterministic between two fresh instances");
-	if (g_ref.sel.size() < 50) harness_error("probe produced no selected output");
+	if (g_ref.sel.size() < 50 || g_ref.out.size() < 1000) harness_error("probe produced no selected output / output");
+	FI *C = new FI, *D = new FI;
+	for (FI *X : {C, D}) {
+		int rc = guarded("LoadDatabaseString(small)", [&] { return X->LoadDatabaseString(g_db_text.c_str()); });
+		if (rc != 0) harness_error(std::string("small database does not load: ") + X->GetErrorString());
+	}
+	g_ref_light = run_probe(C, false);
+	rb = run_probe(D, false);
+	delete C;
+	delete D;
+	if (g_ref_light.rc != 0) harness_error("light probe fails on a fresh instance: " + g_ref_light.err);
+	if (g_ref_light.sel != rb.sel || g_ref_light.warn != rb.warn) harness_error("light probe is not deterministic between two fresh instances");
+	if (g_ref_light.sel.size() < 50) harness_error("light probe produced no selected output");
 	delete B;
 	g_I = A;
 	g_fresh = false;
@@ -386,7 +518,7 @@ static void note_case(const CallInfo &ci, const char *prefix, uint64_t h, size_t
 	bool nt = ci.reached && ci.keyword && nonblank_lines >= 2;
 	if (nt) {
 		g_cnt[std::string(prefix) + "nontrivial"]++;
-		if (g_nt.size() < NT_CAP) g_nt.insert(h);
+		note_nt_hash(h);
 	}
 }
 
@@ -401,13 +533,60 @@ static size_t count_nonblank_lines(const char *s, size_t n)
 	return k + (any ? 1 : 0);
 }
 
+static inline double now_ms()
+{
+	struct timespec ts;
+	clock_gettime(CLOCK_MONOTONIC, &ts);
+	return ts.tv_sec * 1e3 + ts.tv_nsec / 1e6;
+}
+
+// time statistics of the executions (information only; nothing is decided by time)
+static void note_time(const char *cls, double ms)
+{
+	g_cnt[std::string("ms_") + cls] += (unsigned long long)(ms + 0.5);
+	if (ms > 100) g_cnt["slow_over_100ms"]++;
+	if (ms > 1000) g_cnt["slow_over_1s"]++;
+}
+
 static void periodic()
 {
 	static unsigned long long n = 0;
-	if (++n % 2000 == 0) dump_stats();
+	if (++n % 100 == 0) dump_stats();
 }
 
 } // namespace c08
+
+extern "C" void __ubsan_get_current_report_data(const char **kind, const char **msg, const char **file, unsigned *line, unsigned *col, char **addr);
+extern "C" void __sanitizer_print_stack_trace(void);
+extern "C" void __ubsan_on_report(void)
+{
+	const char *kind = 0, *msg = 0, *file = 0;
+	unsigned line = 0, col = 0;
+	char *addr = 0;
+	__ubsan_get_current_report_data(&kind, &msg, &file, &line, &col, &addr);
+	if (!kind) kind = "?";
+	if (!file) file = "?";
+	const char *bn = c08::base_name(file);
+	if (!c08::g_no_known_filter) {
+		for (const c08::UbSite *u = c08::KNOWN_UB; u->kind; u++)
+			if (u->line == line && strcmp(u->kind, kind) == 0 && strcmp(u->file, bn) == 0) {
+				c08::g_cnt[std::string("known_ub_") + u->name]++;
+				return;
+			}
+	}
+	if (c08::g_ub_collect && (strcmp(kind, "float-cast-overflow") == 0 || strcmp(kind, "signed-integer-overflow") == 0 || strcmp(kind, "out-of-bounds-index") == 0)) {
+		char b[300];
+		snprintf(b, sizeof b, "ub_site_%s:%s:%u", kind, bn, line);
+		c08::g_cnt[b]++;
+		return;
+	}
+	fprintf(stderr, "\nC08-UBSAN: %s: %s:%u:%u: %s\n", kind, file, line, col, msg ? msg : "");
+	__sanitizer_print_stack_trace();
+	fflush(stderr);
+	c08::g_cnt["trap_ubsan"]++;
+	c08::dump_stats();
+	__builtin_trap();
+}
 
 // ---- link-time interposition (-Wl,--wrap=exit -Wl,--wrap=_exit): a library-initiated exit is a violation,
 //      the harness' own termination (libFuzzer calls exit(0) after -runs) still works
